@@ -4,6 +4,7 @@ import ZConfig
 from ZConfig import info as zinfo
 
 from . import dts
+from .chars import dec, enc
 
 
 def exc_outcome(e):
@@ -99,7 +100,7 @@ def spec_tree(sv, rec, top=False):
     tname = sv.getSectionType() or ""
     T = rec["top"] if top else rec["types"].get(tname)
     if T is None or T.get("abstract"):
-        return {"type": tname, "name": sv.getSectionName() or "", "attrs": [["~unknown-type~", {"t": "bad"}]]}
+        return {"type": enc(tname), "name": enc(sv.getSectionName() or ""), "attrs": [["~unknown-type~", {"t": "bad"}]]}
     attrs = []
     have = set(sv.getSectionAttributes())
     for c in T["children"]:
@@ -109,7 +110,8 @@ def spec_tree(sv, rec, top=False):
             attrs.append([c["attr"], {"t": "missing"}])
     for a in sorted(have - {c["attr"] for c in T["children"]}):
         attrs.append([a, {"t": "undeclared"}])
-    return {"type": tname, "name": sv.getSectionName() or "", "attrs": attrs}
+    # text as the specification sees it: character tokens
+    return {"type": enc(tname), "name": enc(sv.getSectionName() or ""), "attrs": attrs}
 
 
 # canonical form of the specification's tree (JSON from TLC) -------------------
@@ -135,7 +137,8 @@ def canon_value(v):
 def canon_section(sv):
     if "wrapped" in sv:
         return {"wrapped": canon_section(sv["wrapped"])}
-    return {"type": sv["type"], "name": sv["name"], "attrs": {a: canon_value(x) for a, x in sv["attrs"]}}
+    # the specification's text is character tokens (chars.enc)
+    return {"type": dec(sv["type"]), "name": dec(sv["name"]), "attrs": {a: canon_value(x) for a, x in sv["attrs"]}}
 
 
 # schema digest ------------------------------------------------------------------
